@@ -96,6 +96,8 @@ CANARIES = {
     ],
     "C11": [
         ("overwrite-refusal-removed", "stix2/datastore/filesystem.py", "drop-raise-guard", ["_check_path_and_write", "os.path.isfile"], "C11.check-before-write"),
+        ("sink-encoding-fixed", "stix2/datastore/filesystem.py", "text", ["bundlify=bundlify, encoding=encoding),", "bundlify=bundlify),"], "C11.encoding-agreement"),
+        ("write-encoding-literal", "stix2/datastore/filesystem.py", "text", ["            encoding = self.encoding\n", "            encoding = 'utf-8'\n"], "C11.encoding-agreement"),
         ("oldest-returned", "stix2/datastore/memory.py", "text", ['candidate["modified"] > stix_obj["modified"]', 'candidate["modified"] < stix_obj["modified"]'], "C11.newest"),
     ],
     "C12": [
